@@ -27,6 +27,24 @@ PROPS = {
         "note": "Trusted: as C04. That an exception closes the channel is C07's statement (tail handler), exercised end-to-end by h_life.",
         "assumes": ["io.Reader contract as in Base/Reader.v scripts"],
     },
+    "C14": {
+        "props": "Props/C14.v",
+        "models": ["Model/Conv.v", "Model/ConvCheck.v"],
+        "harness": "h_conv",
+        "results": ["R", "RC"],
+        "text": "Coq theorems: for every accepted outbound type, content, size and reader behaviour (any script: short reads, empty reads, data with EOF, failure) the head handler's low-level writes concatenate to exactly the message (ReadFrom chunks 1..1024 bytes, nothing lost), unsupported types raise and write nothing; ToBytes/ToReader/CountOf/ByteReader/StealBytes return exactly the content. Correspondence: real headHandler on sync and async channels over a recording transport, and the real helpers, on generated messages; model evaluated in Coq on the same inputs.",
+        "note": "Trusted: Coq kernel + vm_compute; hand-written model of handler.go's type switch, channel.ReadFrom and utils/reader.go validated by correspondence; bytes.Reader/strings.Reader/bytes.Buffer WriteTo behaviour as modelled. That the low-level writes reach the transport once/in order is C01.",
+        "assumes": ["a WriterTo is modelled by the sequence of Writes it performs", "io.Reader contract as in Base/Reader.v"],
+    },
+    "C16": {
+        "props": "Props/C16.v",
+        "models": ["Model/Conv.v", "Model/Json.v", "Model/JsonCheck.v"],
+        "harness": "h_conv",
+        "results": ["RJ"],
+        "text": "Text codec: Coq theorems that any byte sequence written as a string is handed down unchanged and read back identical, composed with the frame-codec round-trip theorems of C04 under any fragmentation. JSON codec: PARTIAL - theorems about go-netty's glue (delivers exactly what the library decoded, raises on a decoding error and on a nil object) conditional on two named laws of encoding/json (json_rt_law, json_reject_law) that the harness tests on the real library on every run; correspondence on generated object trees, flags, carriers and malformed frames.",
+        "note": "PARTIAL for JSON: encoding/json is not modelled; the two library laws are explicit hypotheses of c16_json_roundtrip / c16_json_reject (visible in the statements, not axioms) and are tested, not proved. Trusted: Coq kernel, harness.",
+        "assumes": ["json_rt_law and json_reject_law of encoding/json (tested every run; a failure is reported with signature json-hypothesis)"],
+    },
     "C19": {
         "props": "Props/C19.v",
         "models": ["Model/Pool.v", "Model/PoolArithCheck.v"],
